@@ -141,6 +141,7 @@ func runC07(c *Ctx) {
 	}
 	checkOptionWordMonotone(c, "C07.R6", "disabledOptions", 0,
 		"a negated modifier overwrites the ones parsed before it ($~third-party,~match-case keeps only the last): the added modifier does not raise the rule, so the selected rule can be outranked")
+	importRules(c, runC04, map[string]string{"C04.R10": "C07.R7"}, map[string]string{"C07.R7": "content-type modifiers are never taken back while a rule is parsed, so each one counts in the priority key (shared with C04.R10)"})
 	g := NewGate(c.P)
 	g.Unroll = true // a key summed by a loop over a small fixed table of its terms
 	s := g.Eval(ihp)
